@@ -4,6 +4,7 @@ import (
 	"bytes"
 	"fmt"
 	"io"
+	"math"
 	"unicode/utf8"
 )
 
@@ -99,6 +100,10 @@ func (d *Decoder) decodeBytesOfType(expected Type) ([]byte, error) {
 	n, err := d.decodeOfType(expected)
 	if err != nil {
 		return nil, err
+	}
+	if n > math.MaxInt64 {
+		// int64(n) would be negative and io.CopyN would copy nothing.
+		return nil, fmt.Errorf("cbor: string length %d is too large", n)
 	}
 	bs := new(bytes.Buffer)
 	if _, err := io.CopyN(bs, d.r, int64(n)); err != nil {
